@@ -21,7 +21,8 @@ RULE = ("generated interface family (1..3 target namespaces, nested sequence/cho
         ' ; the foreign-typed wrapper stream shared with C08'
         ' ; the same raw Element argument given to several requests; blocks that bind nothing to their own namespace'
         ' ; unprefixed namespaces for body and header, same-named locals with different anonymous types, simpleContent derivations'
-        ' ; anyType parts under rpc/encoded')
+        ' ; anyType parts under rpc/encoded'
+        ' ; optional groups inside anonymous types; derived types with the base\'s local name; defaults of referenced elements')
 ASSUMPTIONS = ["leaf lexical forms are compared by value per XSD type (the translators themselves are C06)",
                "alphabet: a None is passed only where the schema allows absence or nil; a repeating member of "
                "array type (list of lists) and content-free objects are not generated",
